@@ -28,12 +28,13 @@ RULE = (
     "sorted points) unpickled from trees.pkl, parsed meta.yml); transitions = {build_trees on the reference with "
     "binning in {B1 right, B1 left, B1 with an edge moved by 1 ulp, other edges same count, other count, unbinned} "
     "(unforced, forced), the same on a single patch only (BinnedTrees.build), builds on the unknown and random "
-    "catalogs, crosscorrelate / autocorrelate with configurations over these binnings and two scale sets, "
+    "catalogs, crosscorrelate / autocorrelate (also with count_rr=False) with configurations over these binnings and two scale sets, "
     "crosscorrelate with the roles of reference and unknown swapped}; BFS from the first operation given by the "
     "case to depth 3 (quick) / 4 (thorough) with digest deduplication; redshifts sit exactly on bin edges and one "
     "ulp next to them so that every binning difference changes counts. Oracle: result of each measurement "
     "transition == the same measurement on fresh caches. Non-trivial: a measurement whose source state holds "
     "trees of another binning or role for one of the catalogs it uses. One case = the BFS below one first operation. "
+    "Optimised-interpreter part: five fixed histories replayed with PYTHONOPTIMIZE=1 (assert statements stripped). "
     "Handles part: every history of <= depth operations {build_trees(B1r|B2|unbinned), crosscorrelate(B1r|B2)} x {handle 1, "
     "handle 2}, two Catalog objects opened once on the same directories and kept alive; each history runs from pristine "
     "directories (stateless), the oracle is applied to every measurement that ends a history."
@@ -69,6 +70,7 @@ def all_ops(tier):
     ops.append(("cross", "B1r", "s2"))
     ops.append(("auto", "B1r", "s1"))
     ops.append(("auto", "B1l", "s1"))
+    ops.append(("auto-norr", "B1r", "s1"))  # autocorrelate(count_rr=False): DR still needs the random trees
     ops.append(("swapped", "B1r", "s1"))
     if tier == "thorough":
         ops += [("cross", "B3", "s1"), ("auto", "B2", "s2"), ("build", "RR", "B3", False), ("build1", "U", "B1l", False)]
@@ -88,6 +90,14 @@ def cases(tier, seed):
     out = [dict(first=o, depth=depth, tier=tier, seed=seed) for o in ops]
     # long-lived handles: every history of <= depth operations through two handles on the same directories
     out += [dict(part="handles", first=o, depth=depth, tier=tier, seed=seed) for o in handle_ops()]
+    # the same property under the optimised interpreter (python -O / PYTHONOPTIMIZE strips assert statements):
+    # a few fixed histories replayed in a subprocess
+    for hist in ([["build", "R", "B2", False], ["cross", "B1r", "s1"]],
+                 [["cross", "B1l", "s1"], ["cross", "B1r", "s1"]],
+                 [["build", "U", "B1r", False], ["cross", "B1r", "s1"]],
+                 [["auto", "B1r", "s1"], ["swapped", "B1r", "s1"]],
+                 [["build", "R", "B3", False], ["build", "R", "B1e", False], ["auto", "B1r", "s1"]]):
+        out.append(dict(part="pyopt", replay_history=hist, tier=tier, seed=seed))
     return out
 
 
@@ -105,6 +115,9 @@ def setup():
 def make_fixture(root):
     """Three catalogs with redshifts on / next to the edges used by the binnings."""
     zs = [0.15, E, float(np.nextafter(E, 1.0)), 0.25, 0.3, 0.35, float(np.nextafter(E, 0.0)), 0.12]
+    # the random catalog has redshifts exactly on the outer edges 0.1 / 0.4 of the binnings but none on (or next to)
+    # an inner edge: only the closed side decides about its first and last bin
+    zs_rr = [0.15, 0.1, 0.4, 0.25, 0.3, 0.35, 0.4, 0.1]
     cats = {}
     k = 0
     for name, n_per, has_z in (("R", 6, True), ("U", 4, True), ("RR", 5, True)):
@@ -113,7 +126,7 @@ def make_fixture(root):
             for t in range(n_per):
                 ra.append(20.0 + 5.0 * p + 0.37 * t + 0.05 * k)
                 dec.append(0.21 * (t % 3) + 0.02 * k)
-                z.append(zs[(t + 3 * p + k) % len(zs)])
+                z.append((zs_rr if name == "RR" else zs)[(t + 3 * p + k) % len(zs)])
                 w.append(1.0 + ((7 * t + 3 * p + k) % 11))
                 pid.append(p)
         k += 1
@@ -207,6 +220,8 @@ def apply(op, live):
         return obs(yaw.crosscorrelate(conf, cats["R"], cats["U"], unk_rand=cats["RR"]))
     if kind == "auto":
         return obs(yaw.autocorrelate(conf, cats["R"], cats["RR"]))
+    if kind == "auto-norr":
+        return obs(yaw.autocorrelate(conf, cats["R"], cats["RR"], count_rr=False))
     if kind == "swapped":
         return obs(yaw.crosscorrelate(conf, cats["U"], cats["R"], ref_rand=cats["RR"]))
     raise ValueError(op)
@@ -305,9 +320,39 @@ def run_handles(case):
     return res
 
 
+def run_pyopt(case):
+    import json
+    import subprocess
+    import sys
+
+    here = os.path.dirname(os.path.dirname(os.path.abspath(__file__)))
+    inner = dict(replay_history=case["replay_history"], tier=case["tier"], seed=case["seed"])
+    code = ("import json, os, sys; sys.path.insert(0, %r); sys.path.insert(0, os.path.join(os.environ.get('VERIF_REPO', '/repo'), 'src'));"
+            "from checks import c07; c07.setup(); r = c07.run_case(json.loads(sys.argv[1]));"
+            "print('RESULT ' + json.dumps(dict(status=r.get('status', 'ok'), violations=[dict(signature=v['signature'], what=v['what'])"
+            " for v in r.get('violations', [])], optimised=not __debug__)))") % here
+    env = dict(os.environ, PYTHONOPTIMIZE="1")
+    p = subprocess.run([sys.executable, "-c", code, json.dumps(inner)], capture_output=True, text=True, env=env)
+    lines = [l for l in p.stdout.splitlines() if l.startswith("RESULT ")]
+    if not lines:
+        raise RuntimeError(f"optimised-interpreter run failed: {p.stderr[-1500:]}")
+    rep = json.loads(lines[-1][7:])
+    if not rep["optimised"]:
+        raise RuntimeError("subprocess did not run with assertions stripped")
+    res = dict(nontrivial=True, key=case, counters=dict(executions=1, states=1, transitions=len(case["replay_history"]),
+                                                      measurements=1, nontrivial_measurements=1))
+    if rep["violations"]:
+        res.update(status="violation", violations=[dict(
+            signature="C07/python-O/" + v["signature"].split("/", 1)[1],
+            what="with assert statements stripped (python -O / PYTHONOPTIMIZE=1): " + v["what"]) for v in rep["violations"][:2]])
+    return res
+
+
 def run_case(case):
     if case.get("part") == "handles":
         return run_handles(case)
+    if case.get("part") == "pyopt":
+        return run_pyopt(case)
     ops = all_ops(case["tier"])
     root = runner.fresh_dir("c07")
     live = os.path.join(root, "live")
@@ -329,7 +374,10 @@ def run_case(case):
         key = tuple(op)
         if key not in fresh:
             d = restore(os.path.join(snaps, init), work)
-            fresh[key] = apply(op, d)
+            try:
+                fresh[key] = apply(op, d)
+            except Exception as e:  # the measurement fails on fresh caches: reported where it is used
+                fresh[key] = f"EXC {yawx.exc_name(e)}"
             shutil.rmtree(d, ignore_errors=True)
         return fresh[key]
 
@@ -357,11 +405,16 @@ def run_case(case):
             want = fresh_result(op)
             edges, closed = BINNINGS[op[1]]
             byte = (1 if closed == "left" else 0).to_bytes(1, "big") + np.asarray(edges, dtype=float).tobytes()
-            used = ["R", "U", "RR"] if op[0] != "auto" else ["R", "RR"]
+            used = ["R", "U", "RR"] if not op[0].startswith("auto") else ["R", "RR"]
             stale = any(before[(n, p)] is not None and before[(n, p)] != (byte if n != ("U" if op[0] != "swapped" else "R") else b"\\x01")
                         for n in used for p in (0, 1))
             counters["nontrivial_measurements"] += int(stale)
-            if got != want:
+            if isinstance(want, str) and want.startswith("EXC "):
+                viols.append(dict(signature=f"C07/{op[0]}:{op[1]}/raises-on-fresh-caches",
+                                  what=f"{op[0]} with binning {op[1]} raises on freshly created caches ({want[4:]}) but not "
+                                       f"after the history {history}",
+                                  replay_case=dict(replay_history=history + [op], tier=case["tier"], seed=case["seed"])))
+            elif got != want:
                 names = {}
                 for bname, (be, bc) in BINNINGS.items():
                     key = b"\x01" if be is None else (1 if bc == "left" else 0).to_bytes(1, "big") + np.asarray(be, dtype=float).tobytes()
